@@ -1000,7 +1000,7 @@ def check_C06(ctx):
 
 C08_THEOREMS = ["Acv.C08.forbidden_denied", "Acv.C08.denied_exist", "Acv.C08.forbidden_exist", "Acv.C08.single_compile_site",
                 "Acv.C08.deny_list_rejects_at_any_depth", "Acv.C08.old_list_misses_lookup",
-                "Acv.C08Term.denied_call_rejected", "Acv.C08Term.accept_iff", "Acv.C08Term.contexts_reach_every_occurrence"]
+                "Acv.C08Term.denied_call_rejected", "Acv.C08Term.denied_with_binding_rejected", "Acv.C08Term.denied_use_found", "Acv.C08Term.accept_iff", "Acv.C08Term.contexts_reach_every_occurrence"]
 
 
 def cmp_c08(case, i, m):
